@@ -42,8 +42,8 @@ def handle (op : String) (args : Array String) : Option String :=
       if !(isValidUTF8 ty && isValidUTF8 (sk.getD []) && isValidUTF8 se && isValidUTF8 ro) then some "skip:field is not valid UTF-8" else
       let s := sizesOf n ty sk se ro
       if shapeOf s != shape then some "bad-shape-label" else
-      if fine then some (verdictBadHash p s r).show else
-      let m := (verdictBadHash p s r).coarse
+      if fine then some (verdictUntrusted p s r).show else
+      let m := (verdictUntrusted p s r).coarse
       -- specification: the event AS RECEIVED is what the property's limits apply to
       let sp := match Vertable.Spec.traitsOf ver with
         | none => "unspecified:unknown-version"
@@ -61,8 +61,9 @@ def handle (op : String) (args : Array String) : Option String :=
       else
         let s := sizesOf n ty sk se ro
         if shapeOf s != shape then some "bad-shape-label" else
-        if fine then some (verdict p s).show else
-        let m := (verdict p s).coarse
+        let v := if base == "untrusted" then verdictUntrusted p s n else verdict p s
+        if fine then some v.show else
+        let m := v.coarse
         let st := Vertable.Spec.traitsOf ver
         let sp := match st with
           | none => "unspecified:unknown-version"
